@@ -282,6 +282,35 @@ static void space_kinds(int prop)
 	size_t cut;
 	int stride_big = atoi(vf_extra("stride", "1"));
 	build_archives();
+	if (prop == 15) {
+		/* C15, readers are independent: every archive is walked from a seekable file and from a pipe FIRST, before any other reader
+		 * has run in this process; each case then runs readers of the other kinds and repeats the walk - it must observe the same */
+		static uint64_t base[16][3][2];
+		static int basem[16][3][2];
+		int first, k2;
+		obs_t o1;
+		for (k2 = 0; k2 < 2; ++k2)
+		for (ai = 0; ai < NARCS; ++ai) for (mode = 0; mode < 3; ++mode) {
+			walk(k2 ? K_PIPE : K_FILE, ARCS[ai].buf, ARCS[ai].n, mode, 4096, &o1);
+			base[ai][mode][k2] = obs_hash(&o1); basem[ai][mode][k2] = o1.members;
+		}
+		for (ai = 0; ai < NARCS; ++ai) for (mode = 0; mode < 3; ++mode)
+		for (first = 0; first < K_COUNT; ++first)
+		for (k2 = 0; k2 < 2; ++k2) {
+			int target = k2 ? K_PIPE : K_FILE;
+			if (first == target) continue;
+			if (!vf_case("archive=%d walk=%d: a %s reader runs to the end, then a %s reader", ai, mode, KIND_NAME[first], KIND_NAME[target])) continue;
+			walk(first, ARCS[ai].buf, ARCS[ai].n, mode, 4096, &o1);
+			vf_step(obs_hash(&o1));
+			walk(target, ARCS[ai].buf, ARCS[ai].n, mode, 4096, &o1);
+			if (obs_hash(&o1) != base[ai][mode][k2])
+				vf_viol("c15-earlier-reader-disturbs-later", "the %s reader yields %d members after a %s reader has run in the process, %d when it runs first (or differing headers/data/verdicts)",
+				        KIND_NAME[target], o1.members, KIND_NAME[first], basem[ai][mode][k2]);
+			vf_outcome(obs_hash(&o1));
+			vf_nontrivial(vf_mix(ai * 3 + mode, first * 2 + k2 + 9000));
+		}
+		return;
+	}
 	for (ai = 0; ai < NARCS; ++ai) {
 		ab_arc *a = &ARCS[ai];
 		for (mode = 0; mode < 3; ++mode)
